@@ -406,8 +406,8 @@ harness!(avx2vec, 98, c02_sparse_m2_r3_l94_b3_generic, collect_sparse_body::<2, 
 
 //@ C02 quick 800 scanner to exhaustion: matrix 0 (M=2), R=1, L=4 all symbolic, threshold 1.0, AVX2 arm | kani=--no-assertion-reach-checks | mem=10 | unwindset=scan::Scanner<.*Iterator>::next#0:6
 harness!(avx2vec, 34, c02_tiny_m0_r1_l4_avx2, collect_sparse_body::<0, 1, 4, 256, 2>(Dispatch::Avx2, 1.0, 0, &[0, 1, 2, 3]));
-//@ C02 quick 800 scanner to exhaustion: matrix 3 (finite wildcard column, M=2), R=1, L=5 all symbolic, threshold 3.0, generic arm | kani=--no-assertion-reach-checks | mem=10 | unwindset=scan::Scanner<.*Iterator>::next#0:6
-harness!(avx2vec, 34, c02_tiny_m3_r1_l5_generic, collect_sparse_body::<3, 1, 5, 256, 2>(Dispatch::Generic, 3.0, 0, &[0, 1, 2, 3, 4]));
+//@ C02 quick 800 scanner to exhaustion: matrix 3 (finite wildcard column, M=2), R=1, L=5 all symbolic, threshold 6.0, generic arm | kani=--no-assertion-reach-checks | mem=10 | unwindset=scan::Scanner<.*Iterator>::next#0:6
+harness!(avx2vec, 34, c02_tiny_m3_r1_l5_generic, collect_sparse_body::<3, 1, 5, 256, 2>(Dispatch::Generic, 6.0, 0, &[0, 1, 2, 3, 4]));
 //@ C02 quick 800 scanner to exhaustion: matrix 0 (M=2), R=1, L=32 (full last column), symbolic symbols at 0, 1, 30, 31 on a background of T, threshold 2.0, AVX2 arm | kani=--no-assertion-reach-checks | mem=10 | unwindset=scan::Scanner<.*Iterator>::next#0:6
 harness!(avx2vec, 34, c02_tiny_m0_r1_l32_avx2, collect_sparse_body::<0, 1, 32, 256, 2>(Dispatch::Avx2, 2.0, 2, &[0, 1, 30, 31]));
 
@@ -452,7 +452,7 @@ harness!(avx2vec, 34, c03_m4_r1_l10_b256_avx2_pre0, max_body::<4, 1, 10, 256, 0>
 harness!(avx2vec, 34, c03_tiny_m0_r1_l4_avx2_pre0, max_sparse_body::<0, 1, 4, 256, 0>(Dispatch::Avx2, 1.0, 0, &[0, 1, 2, 3]));
 //@ C03 quick 800 scanner max(): matrix 2 (M=3, near-ties under byte rounding), R=1, L=6 all symbolic, threshold 1.25, AVX2 arm, no prior next() | kani=--no-assertion-reach-checks | mem=10 | unwindset=scan::Scanner<.*Iterator>::next#0:6;scan::Scanner<.*Iterator>::max#0:6
 harness!(avx2vec, 34, c03_tiny_m2_r1_l6_avx2_pre0, max_sparse_body::<2, 1, 6, 256, 0>(Dispatch::Avx2, 1.25, 0, &[0, 1, 2, 3, 4, 5]));
-//@ C03 quick 800 scanner max(): matrix 0 (M=2), R=1, L=5 all symbolic, threshold 2.0 (a score value: equality matters), generic arm, one prior next() | kani=--no-assertion-reach-checks | mem=10 | unwindset=scan::Scanner<.*Iterator>::next#0:6;scan::Scanner<.*Iterator>::max#0:6
+//@ C03 thorough 7200 scanner max(): matrix 0 (M=2), R=1, L=5 all symbolic, threshold 2.0 (a score value: equality matters), generic arm, one prior next() | kani=--no-assertion-reach-checks | mem=10 | unwindset=scan::Scanner<.*Iterator>::next#0:6;scan::Scanner<.*Iterator>::max#0:6
 harness!(avx2vec, 34, c03_tiny_m0_r1_l5_generic_pre1, max_sparse_body::<0, 1, 5, 256, 1>(Dispatch::Generic, 2.0, 0, &[0, 1, 2, 3, 4]));
 //@ C03 thorough 7200 scanner max() control (concrete content): matrix 0 (M=2), R=2, L=64, block 2, threshold above every score, AVX2 arm, one prior next() | kani=--no-assertion-reach-checks | mem=16 | unwindset=scan::Scanner<.*Iterator>::next#0:6;scan::Scanner<.*Iterator>::max#0:6
 harness!(avx2vec, 66, c03_ctl_m0_r2_l64_b2_avx2_pre1, max_sparse_body::<0, 2, 64, 2, 1>(Dispatch::Avx2, 30.0, 2, &[]));
